@@ -1198,6 +1198,15 @@ func runScenario(o *Obligation, name string, rec *replayRecord) (bool, string) {
 		return false, "scenario " + name + " not found"
 	}
 	pkg := o.Gen.fn.Pkg.Pkg.Path()
+	// a scenario may live in another package than the function (header: // package-dir: pkg/engine)
+	for _, ln := range strings.Split(string(src), "\n") {
+		if !strings.HasPrefix(ln, "//") {
+			break
+		}
+		if t := strings.TrimSpace(strings.TrimPrefix(ln, "//")); strings.HasPrefix(t, "package-dir:") {
+			pkg = repoModule + "/" + strings.TrimSpace(strings.TrimPrefix(t, "package-dir:"))
+		}
+	}
 	text := strings.Replace(string(src), "func TestGovcScenario(", "func TestGovcReplay(", 1)
 	rec.TestSource = text
 	rec.TestPackage = pkg
